@@ -52,6 +52,7 @@ class UnitResult:
         self.rewrites = []
         self.trusted = []
         self.assumed = []
+        self.required = []
         self.unit_file = ""
         self.cmd = ""
         self.vacuity = None
@@ -125,6 +126,7 @@ def check_unit(tpl_path, vacuity=True, keep=True):
     res.rewrites = unit.rewrites
     res.trusted = X.scan_trusted(text)
     res.assumed = unit.assumed
+    res.required = unit.required
     cmd, js, diags, wall, raw = run_verus(path)
     res.cmd = " ".join(cmd)
     if js is None:
